@@ -350,7 +350,7 @@ func nearMissKey(t *rapid.T) map[string]interface{} {
 	case 1:
 		k["id"] = strings.Repeat("a", rapid.SampledFrom([]int{1, 49, 50, 51, 200}).Draw(t, "idLen"))
 	case 2:
-		k["id"] = rapid.SampledFrom([]string{"a b", "a/b", "a#b", "ä", "a.b", "a:b", "a\n", "k1 ", "%41"}).Draw(t, "badId")
+		k["id"] = "a" + string(rune(rapid.IntRange(0, 0x17f).Draw(t, "idChar"))) + rapid.SampledFrom([]string{"", "b"}).Draw(t, "idTail")
 	case 3:
 		k["type"] = rapid.SampledFrom(gen.AllDocKeyTypes).Draw(t, "otherType")
 		k["purposes"] = []interface{}{rapid.SampledFrom(gen.AllPurposes).Draw(t, "purpose")}
@@ -387,7 +387,7 @@ func nearMissService(t *rapid.T) map[string]interface{} {
 	bad := rapid.SampledFrom([]string{"", "not a uri", "://x", "relative/path", "http//missing-colon", "#frag", " https://lead.space", "\x7f"}).Draw(t, "badURI")
 	switch rapid.IntRange(0, 12).Draw(t, "svcDefect") {
 	case 0:
-		s["id"] = rapid.SampledFrom([]string{"", strings.Repeat("s", 51), "a b", "s/1", strings.Repeat("s", 50)}).Draw(t, "badId")
+		s["id"] = rapid.SampledFrom([]string{"", strings.Repeat("s", 51), "a b", "s/1", strings.Repeat("s", 50), "s" + string(rune(rapid.IntRange(0, 0x17f).Draw(t, "idChar")))}).Draw(t, "badId")
 	case 1:
 		s["type"] = strings.Repeat("T", rapid.SampledFrom([]int{0, 1, 30, 31, 90}).Draw(t, "typeLen"))
 	case 2:
